@@ -13,7 +13,7 @@ SPLIT = {"nested_par": [("_fail", "fail")], "par_branch_retry": [("_fail", "bfai
 scn.register(globals(), {"C09"}, ["seq_chain", "seq_misc", "exec_timeout", "two_execs", "start_routes", "par2", "par_pass_task", "par_catch", "par_retry", "map_items", "par_wait_fail", "par_branch_retry", "par_inner_catch", "nested_par"], SPLIT)
 import s2_more as more
 more.register(globals(), {"C09"}, ["par3_mixed", "map_iter_catch", "map_fail_batches", "map_in_par", "par_in_map", "branch_fail_state", "par_longform", "nested_inner_catch"],
-              {"par3_mixed": [("_none", "not fa and not fb"), ("_a", "fa and not fb"), ("_b", "fb and not fa"), ("_ab", "fa and fb")], "map_in_par": [("_k%d" % k, "kind == %d" % k) for k in range(3)]})
+              {"nested_inner_catch": [("_catch", "mode == 0 and q2 == 0"), ("_retry", "mode == 1 and q2 == 0"), ("_catch_task", "mode == 0 and q2 == 1"), ("_retry_task", "mode == 1 and q2 == 1")], "par3_mixed": [("_none", "not fa and not fb"), ("_a", "fa and not fb"), ("_b", "fb and not fa"), ("_ab", "fa and fb")], "map_in_par": [("_k%d" % k, "kind == %d" % k) for k in range(3)]})
 
 import s2_redis as rds
 rds.register(globals(), {"C09", "C11"}, ["redis_chain", "redis_name_reused"])
@@ -21,6 +21,8 @@ ASSUMPTIONS = ASSUMPTIONS + [
     "redis_* conditions: the engine's stores are the real RedisDictStore/RedisListStore over vf.fake_redis (one connection per process, tracker thread not run: cache invalidation messages are delivered by the harness before each read, or left pending); after every scheduling step DescribeExecution, GetExecutionHistory and ListExecutions are answered by the real REST handlers (asyncio / blocking front end) of the engine's own process or of a second process with its own connection, and compared with the execution's latest notification",
 ]
 more.register(globals(), {"C09"}, ["branch_retry_kinds", "late_nested"], {"branch_retry_kinds": [("_ok", "not bfail"), ("_fail", "bfail")], "late_nested": [("_ok", "not bfail"), ("_fail", "bfail")]})
+
+globals()["nested_inner_catch_retry_task"]._vf.tiers = ("thorough",)   # 1665 schedules: quick tier runs it under C06 only
 
 
 # ---------------------------------------------------------------------------
